@@ -1,0 +1,33 @@
+//go:build !verif
+
+/*
+   Copyright The containerd Authors.
+
+   Licensed under the Apache License, Version 2.0 (the "License");
+   you may not use this file except in compliance with the License.
+   You may obtain a copy of the License at
+
+       http://www.apache.org/licenses/LICENSE-2.0
+
+   Unless required by applicable law or agreed to in writing, software
+   distributed under the License is distributed on an "AS IS" BASIS,
+   WITHOUT WARRANTIES OR CONDITIONS OF ANY KIND, either express or implied.
+   See the License for the specific language governing permissions and
+   limitations under the License.
+*/
+
+// Package vhook provides verification hook points. They are compiled in only
+// with the "verif" build tag; without it Point() is an empty function.
+package vhook
+
+// Func is a hook function: a named point in the code and its arguments.
+type Func func(point string, args ...interface{})
+
+// Set installs a hook function (a no-op without the "verif" build tag).
+func Set(Func) {}
+
+// Enabled tells whether hook points are compiled in.
+const Enabled = false
+
+// Point reports that execution reached the named point (a no-op without the "verif" build tag).
+func Point(string, ...interface{}) {}
